@@ -200,7 +200,7 @@ type PersistUpdate struct {
 // WARNING: must not modify meta.
 func (m *Meta) Persist(exec func(func() PersistUpdate)) {
 	for ti := range m.info.All() {
-		if len(ti.Indexes) >= 1 && ti.Indexes[0].Modified() {
+		if ti.modified() {
 			exec(func() PersistUpdate {
 				results := make([]*btree.T, len(ti.Indexes))
 				for i, ov := range ti.Indexes {
@@ -210,6 +210,21 @@ func (m *Meta) Persist(exec func(func() PersistUpdate)) {
 			})
 		}
 	}
+}
+
+// modified returns whether any index has changes to persist.
+// Normally the indexes of a table change together,
+// but an index built by ensure or alter create
+// already has the unpersisted changes of the existing indexes in its btree,
+// so when those changes are later cancelled out (e.g. insert then delete)
+// only the new index is left with something to persist.
+func (ti *Info) modified() bool {
+	for _, ov := range ti.Indexes {
+		if ov.Modified() {
+			return true
+		}
+	}
+	return false
 }
 
 func (pu PersistUpdate) Table() string {
